@@ -264,6 +264,7 @@ namespace
             by_sink.scr.strict = false;
             by->start(8, 2, &by_sink, "", true);
             size_t by_pos = 0, by_lines = 0;
+            int etx_fed = 0;
             const char by_script[3] = {'o', 'k', '\r'};
             auto feed = [&](int b) {
                 by->feed((unsigned char)by_script[by_pos]);
@@ -276,6 +277,7 @@ namespace
                                 by_sink.executed.empty() ? "" : by_sink.executed.back().c_str());
                 }
                 term->feed(b);
+                if (b == 3) etx_fed++; // (every Ctrl-C byte, whatever stands before it)
                 last_byte = b;
                 tr.u((uint64_t)b);
             };
@@ -487,6 +489,10 @@ namespace
                     // noise configuration: only the safety half (bounds, memory, sane execute arguments)
                     for (size_t q = exec_base; q < sink.executed.size(); q++)
                         if (sink.executed[q].size() >= cap) violate("C15/execute-args", "executed line of %zu characters for capacity %zu", sink.executed[q].size(), cap);
+                    // ... and the interrupt key: Ctrl-C is recognised wherever it arrives, also in the middle of an escape sequence
+                    // (one SIGINT per 0x03 byte when a signal callback is registered; what becomes of the interrupted sequence is not judged)
+                    if (!no_sig && sink.sigints != etx_fed)
+                        violate("C15/sigint", "%d Ctrl-C bytes were typed (some inside escape sequences or noise), SIGINT was raised %d times", etx_fed, sink.sigints);
                 }
             }
             res.steps = keys;
